@@ -414,16 +414,15 @@ class Parser:
             if v == 'new':                       # `new T(args)`: an opaque value (can only initialise a symbolic local)
                 ty = self.try_type()
                 if ty is None: raise Unsupported('new expression')
+                args = []
                 if self.at('('):
-                    depth = 0
-                    while True:
-                        k2, v2 = self.next()
-                        if k2 == 'eof': raise Unsupported('unterminated new expression')
-                        if k2 == 'op' and v2 == '(': depth += 1
-                        elif k2 == 'op' and v2 == ')':
-                            depth -= 1
-                            if depth == 0: break
-                return ('new', ty)
+                    self.next()
+                    if not self.at(')'):
+                        args.append(self.assign())
+                        while self.at(','):
+                            self.next(); args.append(self.assign())
+                    self.expect(')')
+                return ('new', ty, args)
             name = v
             while self.at('::') and self.peek(1)[0] == 'id':
                 self.next(); name += '::' + self.next()[1]
@@ -609,6 +608,7 @@ class Tr:
         # calls that READ AND WRITE state variables (explicit state passing):  key -> dict(term='f {$a} {$b} {0}', updates=['$a','$b'],
         # ret=type|None, args=[types]).  key = full call text for value calls ('GetAcknowledgement()'), callee for statements.
         self.calls_st = dict(t.get('calls_st', {}))
+        self.dict_shape = t.get('dict_shape')         # ('seg', ['begin', 'end']): new Dictionary({{"begin", x}, {"end", y}}) is the value (x, y) of type seg
         self.assigns = dict(t.get('assigns', {}))     # key of an lvalue (e.g. '[new MessageOrigin]->FromZone') -> state variable
         self.appends = dict(t.get('appends', {}))     # 'v.push_back' -> list-typed local v :  v := v ++ [argument]
         self.emits = dict(t.get('emits', {}))        # call key (regex) -> (event list state variable, event term)
@@ -715,6 +715,15 @@ class Tr:
             ty = a[1] if a[1] == b[1] else ('u64' if {a[1], b[1]} == {'Z', 'u64'} else None)
             if ty is None: raise Unsupported('ternary branches of types %s / %s' % (a[1], b[1]))
             return ('if %s then %s else %s' % (c, self.coerce(a, ty), self.coerce(b, ty)), ty)
+        if kind == 'new' and self.dict_shape and e[1] == 'Dictionary' and len(e[2]) == 1 and unparen(e[2][0])[0] == 'initlist':
+            tyname, keys = self.dict_shape
+            items = {}
+            for it in unparen(e[2][0])[1]:
+                it = unparen(it)
+                if it[0] != 'initlist' or len(it[1]) != 2 or unparen(it[1][0])[0] != 'str': raise Unsupported('dictionary literal')
+                items[unparen(it[1][0])[1].strip('"')] = self.coerce(self.tx(it[1][1], env), 'Z')
+            if sorted(items) != sorted(keys): raise Unsupported('dictionary literal with keys ' + ','.join(sorted(items)))
+            return ('(' + ', '.join(items[k_] for k_ in keys) + ')', tyname)
         if kind == 'index':
             a = self.tx(e[1], env)
             td = self.types.get(a[1], {})
@@ -819,9 +828,18 @@ class Tr:
             return l[1]
         if e[0] == 'call':
             fk = key(e[1], None)
-            if fk in self.setters: return self.setters[fk]
+            if self.setter_of(e): return self.setter_of(e)[0]
             if fk in self.emits: return self.emits[fk][0]
             if fk in self.appends: return self.appends[fk]
+        return None
+
+    def setter_of(self, e):
+        """(state variable, value expression) of a call that is a bound setter, else None; `obj->Set("key", v)` is looked up as 'obj->Set("key")'"""
+        fk = key(e[1], None)
+        if fk in self.setters and len(e[2]) == 1: return self.setters[fk], e[2][0]
+        if len(e[2]) == 2 and unparen(e[2][0])[0] == 'str':
+            fk2 = '%s(%s)' % (fk, unparen(e[2][0])[1])
+            if fk2 in self.setters: return self.setters[fk2], e[2][1]
         return None
 
     def targets_of(self, e, env):
@@ -1097,9 +1115,9 @@ class Tr:
             raise Unsupported('assignment to unknown variable ' + n)
         if e[0] == 'call':
             fk = key(e[1], None)
-            if fk in self.setters and len(e[2]) == 1:
-                n = self.setters[fk]
-                return self.let(n, env.vals[n][1], self.coerce(self.tx(e[2][0], env), env.vals[n][1]), env, R)
+            if self.setter_of(e):
+                n, ve = self.setter_of(e)
+                return self.let(n, env.vals[n][1], self.coerce(self.tx(ve, env), env.vals[n][1]), env, R)
             if fk in self.appends and len(e[2]) == 1:
                 n = self.appends[fk]
                 if n not in env.vals or env.vals[n][0] is None: raise Unsupported('append to an unknown or uninitialised list ' + n)
@@ -1119,6 +1137,7 @@ class Tr:
                 n, tmpl, ats = self.emits[fk]
                 args = [self.coerce(self.tx(a, env), at) if at else '' for a, at in zip(e[2], ats)]
                 if len(ats) != len(e[2]): raise Unsupported('arity of ' + fk)
+                tmpl = re.sub(r'\{(\$\w+)\}', lambda m: env.vals[m.group(1)][0], tmpl)
                 return self.let(n, env.vals[n][1], '%s ++ [%s]' % (env.vals[n][0], tmpl.format(*[P(a) for a in args])), env, R)
         raise Unsupported('statement ' + sk[:60])
 
